@@ -366,7 +366,7 @@ fn new_region(w: &mut World) -> Result<(Reg, usize), String> {
 }
 
 fn seq_op(w: &mut World, accepted: &mut u32, refused: &mut u32, drops: &mut u32) -> String {
-    let mut k = cx().a(16);
+    let mut k = cx().a(18);
     // steer towards operations that are possible in the current state
     let has = |f: &dyn Fn(&H) -> bool| w.hs.iter().flatten().any(|h| f(h));
     let possible = match k {
@@ -377,6 +377,7 @@ fn seq_op(w: &mut World, accepted: &mut u32, refused: &mut u32, drops: &mut u32)
         11 => has(&|h| matches!(h, H::Atomic(..))),
         12 => has(&|h| matches!(h, H::Atomic(..))) && has(&|h| matches!(h, H::Map(..))),
         13..=15 => !w.live().is_empty(),
+        16 | 17 => true,
         _ => true,
     };
     if !possible {
@@ -609,6 +610,64 @@ fn seq_op(w: &mut World, accepted: &mut u32, refused: &mut u32, drops: &mut u32)
                 w.atomics[obj] = l2;
             }
             format!("handle {}.lock().{}", ai, if without { "drop (no replace)".to_string() } else { format!("replace(clone of handle {})", mi) })
+        }
+        16 | 17 => {
+            // several regions built by one call; now and then the k-th mmap of the call fails:
+            // the call must fail and the regions it had already mapped must not leak
+            let n = 1 + cx().a(3) as usize;
+            let mut ranges: Vec<(GuestAddress, usize, Option<FileOffset>)> = Vec::new();
+            let mut cur = 0x4000_0000u64 + 0x1_0000 * cx().a(64) as u64;
+            let mut specs = Vec::new();
+            for _ in 0..n {
+                let size = [1usize, 4096, 8192, 5000][cx().a(4) as usize];
+                let file = cx().a(3) == 0;
+                let fo = if file { Some(FileOffset::new(crate::gmworld::memfd(size as u64), 0)) } else { None };
+                ranges.push((GuestAddress(cur), size, fo));
+                specs.push((cur, size, file));
+                cur += size as u64 + [0u64, 1, 0x1000][cx().a(3) as usize];
+            }
+            let fail_at = if cx().a(3) == 0 { Some(cx().a(n as u32)) } else { None };
+            if let Some(kf) = fail_at {
+                cx().sys.fail_mmap_at = Some((cx().sys.mmap_calls + kf, libc::ENOMEM));
+            }
+            let live_before = cx().sys.live_count();
+            let desc = format!("from_ranges_with_files({:x?}){}", specs, fail_at.map(|k| format!(" [mmap #{} of the call made to fail]", k)).unwrap_or_default());
+            match catch(|| Map::from_ranges_with_files(ranges.iter())) {
+                OpOutcome::Ok(Ok(m)) => {
+                    if fail_at.is_some() {
+                        viol10("C10/create", "multi-region construction verdict".into(), format!("{} succeeded although an mmap failed", desc));
+                    }
+                    *accepted += 1;
+                    let mut ids = Vec::new();
+                    for (i, &(b, sz, file)) in specs.iter().enumerate() {
+                        let id = w.regs.len();
+                        let r = m.find_region(GuestAddress(b)).unwrap();
+                        let host = r.as_ptr() as usize;
+                        let mid = cx().sys.find_live(host).map(|x| x.id);
+                        raw_write(r.as_ptr(), &tag(id, sz));
+                        w.regs.push(RegInfo { id, base: b, size: sz, kind: if file { "file-backed" } else { "anonymous" }, mid, ext: None, host });
+                        ids.push(id);
+                        let _ = i;
+                    }
+                    let hi = w.push(H::Map(m, ids));
+                    format!("{} -> handle {}", desc, hi)
+                }
+                OpOutcome::Ok(Err(e)) => {
+                    *refused += 1;
+                    if fail_at.is_none() {
+                        viol10("C10/create", "multi-region construction verdict".into(), format!("{} failed with {:?}", desc, e));
+                    }
+                    if cx().sys.live_count() != live_before {
+                        cx().violate("C12", "C12/leak", "failed multi-region construction left a mapping".into(), format!("{}: refused with {} but {} mapping(s) of the call are still mapped", desc, merr(&e), cx().sys.live_count() - live_before));
+                    }
+                    format!("{} -> {}", desc, merr(&e))
+                }
+                OpOutcome::Panic(m) => {
+                    viol10("C10/panic", "panic in from_ranges_with_files".into(), format!("{}: {}", desc, m));
+                    desc
+                }
+                OpOutcome::Sim(s) => format!("{:?}", s),
+            }
         }
         _ => {
             // drop any live handle
